@@ -219,9 +219,6 @@ func desugarIterators(pkgs []*packages.Package) (map[string][]byte, []string, ma
 			}
 		}
 	}
-	if len(defs) == 0 {
-		return nil, nil, nil
-	}
 	rewritten := map[types.Object]int{}
 	srcCache := map[string][]byte{}
 	src := func(file string) []byte {
@@ -254,6 +251,7 @@ func desugarIterators(pkgs []*packages.Package) (map[string][]byte, []string, ma
 				continue
 			}
 			var edits []textEdit
+			keepImport := map[string]string{} // import path → local name: still referenced after the rewrite
 			labelled := map[ast.Stmt]bool{}
 			ast.Inspect(f, func(n ast.Node) bool {
 				if l, ok := n.(*ast.LabeledStmt); ok {
@@ -270,6 +268,31 @@ func desugarIterators(pkgs []*packages.Package) (map[string][]byte, []string, ma
 				call, ok := rs.X.(*ast.CallExpr)
 				if !ok || call.Ellipsis.IsValid() {
 					return true
+				}
+				// the library's trivial adapters: slices.All / slices.Values / maps.All / maps.Keys /
+				// maps.Values of x are the plain range over x (by the packages' documentation)
+				if se, isSel := call.Fun.(*ast.SelectorExpr); isSel && len(call.Args) == 1 {
+					if id, isID := se.X.(*ast.Ident); isID {
+						if pn, isPkg := pk.TypesInfo.Uses[id].(*types.PkgName); isPkg {
+							path, name := pn.Imported().Path(), se.Sel.Name
+							arg := string(content[off(call.Args[0].Pos()):off(call.Args[0].End())])
+							keyOnly := rs.Value == nil && rs.Key != nil
+							switch {
+							case (path == "slices" || path == "maps") && name == "All", path == "maps" && name == "Keys" && (keyOnly || rs.Key == nil):
+								edits = append(edits, textEdit{off(call.Pos()), off(call.End()), arg})
+							case (path == "slices" || path == "maps") && name == "Values" && (keyOnly || rs.Key == nil):
+								if keyOnly {
+									edits = append(edits, textEdit{off(rs.Key.Pos()), off(rs.Key.Pos()), "_, "})
+								}
+								edits = append(edits, textEdit{off(call.Pos()), off(call.End()), arg})
+							default:
+								return true
+							}
+							keepImport[path] = id.Name
+							notes = append(notes, fmt.Sprintf("%s: range over %s.%s(x) read as the range over x", fset.Position(rs.For), path, name))
+							return true
+						}
+					}
 				}
 				var fobj types.Object
 				var recvExpr ast.Expr
@@ -458,7 +481,16 @@ func desugarIterators(pkgs []*packages.Package) (map[string][]byte, []string, ma
 				return false
 			})
 			if len(edits) > 0 {
-				overlay[file] = []byte(applyEdits(content, 0, len(content), edits))
+				out := applyEdits(content, 0, len(content), edits)
+				for path, local := range keepImport {
+					switch path {
+					case "slices":
+						out += "\nvar _ = " + local + ".Contains[[]int]\n"
+					case "maps":
+						out += "\nvar _ = " + local + ".Keys[map[int]int]\n"
+					}
+				}
+				overlay[file] = []byte(out)
 			}
 		}
 	}
